@@ -13,21 +13,34 @@ GFlatten(xs, j, acc) ==
 (* equality that ignores the address-derived id of keyvalue triples         *)
 IsTriple(v) == v.t = "obj" /\ Len(v.o) = 3 /\ v.o[1].k = IdBytes /\ v.o[2].k = KeyBytes /\ v.o[3].k = ValBytes
 RECURSIVE IdBlindEq(_, _), IdBlindSeq(_, _, _)
+Big(v) == v.t = "num" /\ v.rep = "i" /\ BNCmp(BNAbs(v.n), BN(4096)) > 0
 IdBlindEq(a, b) ==
   IF a.t # b.t THEN FALSE
+  ELSE IF Big(a) /\ Big(b) THEN TRUE        \* address-derived ids taken out of a triple
   ELSE IF IsTriple(a) /\ IsTriple(b) THEN a.o[2].v = b.o[2].v /\ IdBlindEq(a.o[3].v, b.o[3].v)
   ELSE IF a.t = "arr" THEN Len(a.a) = Len(b.a) /\ IdBlindSeq(a.a, b.a, 1)
   ELSE IF a.t = "obj" THEN Len(a.o) = Len(b.o) /\ \A i \in 1..Len(a.o) : a.o[i].k = b.o[i].k /\ IdBlindEq(a.o[i].v, b.o[i].v)
   ELSE a = b
 IdBlindSeq(a, b, i) == IF i > Len(a) THEN TRUE ELSE IdBlindEq(a[i], b[i]) /\ IdBlindSeq(a, b, i + 1)
 SeqEq(a, b) == Len(a) = Len(b) /\ IdBlindSeq(a, b, 1)
+RECURSIVE FirstBlind(_, _, _), BagBlind(_, _)
+FirstBlind(x, r, i) == IF i > Len(r) THEN 0 ELSE IF IdBlindEq(x, r[i]) THEN i ELSE FirstBlind(x, r, i + 1)
+BagBlind(s, r) ==       \* multiset equality under IdBlindEq; address-like numbers matched last
+  IF Len(s) # Len(r) THEN FALSE
+  ELSE IF Len(s) = 0 THEN TRUE
+  ELSE LET ord == SelectSeq(s, LAMBDA x : ~Big(x)) \o SelectSeq(s, LAMBDA x : Big(x))
+           i   == FirstBlind(ord[1], r, 1)
+       IN i # 0 /\ BagBlind(Tail(ord), VRemoveAt(r, i))
 
 Hard(cls) == cls \in {"hard", "ctx"}
 (* In strict mode the steps (and filter conditions) that follow .** ignore  *)
 (* structural errors; a suffix or condition evaluated on its own does not,  *)
 (* so the splitting laws do not apply there (the property excludes it).     *)
 HasAnyStep(ch) == \E i \in 1..Len(ch) : ch[i].k = "any"
-Excluded(g) == ~g.lax /\ HasAnyStep(g.runs[2].path.chain)
+(* ids of keyvalue triples depend on the base object; once a later step     *)
+(* takes the id out of its triple it cannot be compared across executions   *)
+KVNotLast(ch) == \E i \in 1..(Len(ch) - 1) : ch[i].k = "method" /\ ch[i].name = "keyvalue"
+Excluded(g) == (~g.lax /\ HasAnyStep(g.runs[2].path.chain)) \/ KVNotLast(g.runs[1].path.chain)
 GNondet(run) == Nondet([path |-> run.path, doc |-> run.doc, vars |-> run.vars])
 (* crashes are reported under C05; "opaque" only occurs in groups built from *)
 (* the specification (it declined to decide)                                *)
@@ -53,20 +66,23 @@ JudgeC10(g) ==
   IN IF \E i \in 1..Len(g.runs) : Broken(g.runs[i]) THEN {}                 \* reported under C05
      ELSE IF Excluded(g) THEN {}
      ELSE IF pre.err.cls # "none" THEN
-          (IF main.err.cls = pre.err.cls THEN {} ELSE {"C10.prefix-error"})
+          (IF main.err.cls # "none" THEN {} ELSE {"C10.prefix-error"})
      ELSE IF Len(per) # Len(U) \/ \E k \in 1..Len(U) : per[k].doc # U[k] THEN {"infra.C10.group-shape"}
      ELSE LET e == Kept(per, 1, <<>>)
           IN IF e.err # "none" THEN (IF main.err.cls = e.err THEN {} ELSE {"C10.condition-error"})
              ELSE IF main.err.cls # "none" THEN {"C10.aborted"}
              ELSE IF SeqEq(main.items, e.items) THEN {}
-             ELSE IF GNondet(g.runs[1]) /\ BagMatch(main.items, e.items) THEN {"bag.C10"}
+             ELSE IF GNondet(g.runs[1]) /\ BagBlind(main.items, e.items) THEN {"bag.C10"}
              ELSE {"C10.wrong-items"}
 
 (* runs[1] = P ? (C1) ? (C2); runs[2] = P ? (C1 && C2), strict, no hard error *)
 JudgeC10Conj(g) ==
   LET a == g.runs[1].q  b == g.runs[2].q
   IN IF Broken(g.runs[1]) \/ Broken(g.runs[2]) \/ Hard(a.err.cls) \/ Hard(b.err.cls) THEN {}
-     ELSE IF a.err.cls = b.err.cls /\ SeqEq(a.items, b.items) THEN {} ELSE {"C10.consecutive-filters"}
+     ELSE IF a.err.cls = b.err.cls /\ SeqEq(a.items, b.items) THEN {}
+     ELSE IF GNondet(g.runs[1]) /\ a.err.cls = "none" /\ b.err.cls = "none" /\ BagBlind(a.items, b.items) THEN {"bag.C10"}
+     ELSE IF GNondet(g.runs[1]) /\ (a.err.cls # "none" \/ b.err.cls # "none") THEN {"bag.C10"}
+     ELSE {"C10.consecutive-filters"}
 
 -----------------------------------------------------------------------------
 (* C09.  runs[1] = P S; runs[2] = P; runs[2+k] = $ S on the k-th item of P. *)
@@ -81,13 +97,15 @@ JudgeC09(g) ==
       per == SubSeq(g.runs, 3, Len(g.runs))
   IN IF \E i \in 1..Len(g.runs) : Broken(g.runs[i]) THEN {}
      ELSE IF Excluded(g) THEN {}
-     ELSE IF pre.err.cls # "none" THEN (IF main.err.cls = pre.err.cls THEN {} ELSE {"C09.prefix-error"})
+     (* P fails: P S fails too -- possibly earlier and with another class, since *)
+     (* the steps of S run on each item of P before P produces its next item    *)
+     ELSE IF pre.err.cls # "none" THEN (IF main.err.cls # "none" THEN {} ELSE {"C09.prefix-error"})
      ELSE IF Len(per) # Len(pre.items) \/ \E k \in 1..Len(per) : per[k].doc # pre.items[k] THEN {"infra.C09.group-shape"}
      ELSE LET e == Concat(per, 1, <<>>)
           IN IF e.err # "none" THEN (IF main.err.cls = e.err THEN {} ELSE {"C09.suffix-error"})
              ELSE IF main.err.cls # "none" THEN {"C09.aborted"}
              ELSE IF SeqEq(main.items, e.items) THEN {}
-             ELSE IF GNondet(g.runs[1]) /\ BagMatch(main.items, e.items) THEN {"bag.C09"}
+             ELSE IF GNondet(g.runs[1]) /\ BagBlind(main.items, e.items) THEN {"bag.C09"}
              ELSE {"C09.not-compositional"}
 
 (* runs[1] = $ S on doc; runs[2] = $v S with v bound to doc; runs[3] (when   *)
@@ -95,8 +113,14 @@ JudgeC09(g) ==
 JudgeC09Head(g) ==
   LET a == g.runs[1].q
   IN IF \E i \in 1..Len(g.runs) : Broken(g.runs[i]) THEN {}
+     ELSE IF KVNotLast(g.runs[1].path.chain) THEN {}
      ELSE IF \A i \in 2..Len(g.runs) : g.runs[i].q.err.cls = a.err.cls /\ SeqEq(g.runs[i].q.items, a.items)
-          THEN {} ELSE {"C09.head-independence"}
+          THEN {}
+     ELSE IF GNondet(g.runs[1]) /\ (\A i \in 2..Len(g.runs) :
+                 \/ g.runs[i].q.err.cls # "none" \/ a.err.cls # "none"     \* member order decides whether the failure is met first
+                 \/ BagBlind(g.runs[i].q.items, a.items))
+          THEN {"bag.C09"}
+     ELSE {"C09.head-independence"}
 
 -----------------------------------------------------------------------------
 (* C11.  runs: 1 = p, 2 = q, 3 = p && q, 4 = p || q, 5 = !(p), 6 = (p) is   *)
@@ -153,11 +177,22 @@ JudgeC11Exists(g) ==
   IN IF \E i \in 1..Len(g.runs) : Broken(g.runs[i]) THEN {}
      ELSE IF x = want THEN {} ELSE {"C11.exists"}
 
+(* When the order of object members is in play the executions of a group   *)
+(* may have met members in different orders (so that a different failure is *)
+(* met first, or items come out in another order): such a group is judged   *)
+(* by multiset comparison where all executions succeeded and is otherwise   *)
+(* left undecided.                                                          *)
+Loosen(g, v, tag) ==
+  IF v = {} \/ ~(\E i \in 1..Len(g.runs) : GNondet(g.runs[i])) THEN v
+  ELSE IF \A cl \in v : cl \in {"C10.wrong-items", "C09.not-compositional", "C09.head-independence", "C10.consecutive-filters"}
+       THEN v             \* the laws themselves already tried the multiset comparison
+       ELSE {"bag." \o tag}
+
 JudgeGroup(g) ==
-  CASE g.kind = "C10"      -> JudgeC10(g)
-    [] g.kind = "C10conj"  -> JudgeC10Conj(g)
-    [] g.kind = "C09"      -> JudgeC09(g)
-    [] g.kind = "C09head"  -> JudgeC09Head(g)
+  CASE g.kind = "C10"      -> Loosen(g, JudgeC10(g), "C10")
+    [] g.kind = "C10conj"  -> Loosen(g, JudgeC10Conj(g), "C10")
+    [] g.kind = "C09"      -> Loosen(g, JudgeC09(g), "C09")
+    [] g.kind = "C09head"  -> Loosen(g, JudgeC09Head(g), "C09")
     [] g.kind = "C11"      -> JudgeC11(g)
     [] g.kind = "C11exists" -> JudgeC11Exists(g)
 =============================================================================
